@@ -39,7 +39,7 @@ Lemma dir_receiver_at j S eS eR w w' eR' w1' :
 Proof.
   intros [A B B' C D] H1 H2 Hj Hne. constructor; rewrite ?H1; auto.
   intros i. destruct (N.eq_dec i j) as [->|Hn]; auto.
-  destruct (Hne i Hn) as (E1 & E2 & E3).
+  destruct (Hne i Hn) as (E1 & E2 & E3). destruct (wp_incr _ _ _ E3).
   eapply per_id_frame; eauto; rewrite ?H1; lia.
 Qed.
 
@@ -60,7 +60,7 @@ Lemma dir_frame S eS eR w w' eS' eR' w1 w1' :
   dir_inv S eS' eR' w1 w1'.
 Proof.
   intros [A B B' C D] H1 H2 H2' H3 Hi Hl Hf Hc. constructor; auto.
-  intros i. destruct (Hi i) as (E1 & E2 & E3 & E4 & E5 & E6 & E7 & E8).
+  intros i. destruct (Hi i) as (E1 & E2 & E3 & E4 & E5 & E6 & E7 & E8). destruct (wp_incr _ _ _ E8).
   eapply per_id_frame; eauto.
 Qed.
 
